@@ -1398,11 +1398,22 @@ static void
 avx_rule_mullb (OrcCompiler *p, void *user, OrcInstruction *insn)
 {
   const int src0 = p->vars[insn->src_args[0]].alloc;
-  const int src1 = p->vars[insn->src_args[1]].alloc;
+  int src1 = p->vars[insn->src_args[1]].alloc;
   const int dest = p->vars[insn->dest_args[0]].alloc;
   const int tmp = orc_compiler_get_temp_reg (p);
   const int tmp2 = orc_compiler_get_temp_reg (p);
   const int size = p->vars[insn->src_args[0]].size << p->loop_shift;
+
+  if (src1 == dest) {
+    /* dest is written before the last read of the second operand */
+    const int src1_copy = orc_compiler_get_temp_reg (p);
+    if (size >= 32) {
+      orc_avx_emit_movdqa (p, src1, src1_copy);
+    } else {
+      orc_avx_sse_emit_movdqa (p, src1, src1_copy);
+    }
+    src1 = src1_copy;
+  }
 
   if (size >= 32) {
     // src0 == dest, so don't assume we can read dest post-facto
@@ -1441,11 +1452,22 @@ static void
 avx_rule_mulhsb (OrcCompiler *p, void *user, OrcInstruction *insn)
 {
   const int src0 = p->vars[insn->src_args[0]].alloc;
-  const int src1 = p->vars[insn->src_args[1]].alloc;
+  int src1 = p->vars[insn->src_args[1]].alloc;
   const int dest = p->vars[insn->dest_args[0]].alloc;
   const int tmp = orc_compiler_get_temp_reg (p);
   const int tmp2 = orc_compiler_get_temp_reg (p);
   const int size = p->vars[insn->src_args[0]].size << p->loop_shift;
+
+  if (src1 == dest) {
+    /* dest is written before the last read of the second operand */
+    const int src1_copy = orc_compiler_get_temp_reg (p);
+    if (size >= 32) {
+      orc_avx_emit_movdqa (p, src1, src1_copy);
+    } else {
+      orc_avx_sse_emit_movdqa (p, src1, src1_copy);
+    }
+    src1 = src1_copy;
+  }
 
   if (size >= 32) {
     // src0 == dest, so don't assume we can read dest post-facto
@@ -1491,11 +1513,22 @@ static void
 avx_rule_mulhub (OrcCompiler *p, void *user, OrcInstruction *insn)
 {
   const int src0 = p->vars[insn->src_args[0]].alloc;
-  const int src1 = p->vars[insn->src_args[1]].alloc;
+  int src1 = p->vars[insn->src_args[1]].alloc;
   const int dest = p->vars[insn->dest_args[0]].alloc;
   const int tmp = orc_compiler_get_temp_reg (p);
   const int tmp2 = orc_compiler_get_temp_reg (p);
   const int size = p->vars[insn->src_args[0]].size << p->loop_shift;
+
+  if (src1 == dest) {
+    /* dest is written before the last read of the second operand */
+    const int src1_copy = orc_compiler_get_temp_reg (p);
+    if (size >= 32) {
+      orc_avx_emit_movdqa (p, src1, src1_copy);
+    } else {
+      orc_avx_sse_emit_movdqa (p, src1, src1_copy);
+    }
+    src1 = src1_copy;
+  }
 
   if (size >= 32) {
     // src0 == dest, so don't assume we can read dest post-facto
